@@ -10,6 +10,7 @@ import os
 import sys
 import time
 
+sys.dont_write_bytecode = True  # leave nothing but --out behind
 HERE = os.path.dirname(os.path.abspath(__file__))
 sys.path.insert(0, HERE)
 
@@ -19,6 +20,7 @@ def main(argv=None):
     # iteration order; oracles that study hash-seed dependence (C09, C18) start their own children
     if argv is None and os.environ.get("PYTHONHASHSEED") != "0":
         os.environ["PYTHONHASHSEED"] = "0"
+        os.environ["PYTHONDONTWRITEBYTECODE"] = "1"
         os.execv(sys.executable, [sys.executable] + sys.argv)
     ap = argparse.ArgumentParser()
     ap.add_argument("--property")
